@@ -1,6 +1,7 @@
 import IpaVerif.Driver.C13Iso
 import IpaVerif.Model.Util
 import IpaVerif.Model.Channel
+import IpaVerif.Generated.Gateway
 /-! Line-protocol handlers for property C13 (model side). Import-free.
 
 * `c13.config <active> <read_size> <record_size> <u|i|s<n>>` → `<total_capacity> <record_size> <read_size>` | `panic:<tag>`
@@ -8,6 +9,13 @@ import IpaVerif.Model.Channel
   → per op `ok|<woken>` / `none` / `some<stream>` / `panic`
 * `c13.chan <active> <read_size> <size> <i|s<n>> <op,…>` with `s<g>.<i>` (send record i on gate g, payload
   `payload g i`), `r<g>.<i>` (receive record i on gate g) → per op `ok` / `err:TooManyRecords` / `<hex>` / `eos`.
+* `c13.window <base_active> <read_size> <w> <record_size> <u|i|s<n>>`: the REAL chain
+  `GatewayConfig{base_active, read_size}.set_active_work(w)` → `SendChannelConfig::new_with`
+  → `<active> <total_capacity> <record_size> <read_size>`
+* `c13.qwindow <base_active> <read_size> <query_size>`: `set_active_work_from_query_config` → `<active> <read_size>`
+* `c13.burst <base_active> <read_size> <w> <size> <n>`: a channel opened with the window `w` on a gateway
+  configured with `base_active`; the sender pushes records `0..n` (total `n`) one after the other before the
+  receiver polls at all, then the receiver takes them in order → `ok n=<n> digest=<d>` | `blocked at=<i>`
 -/
 namespace IpaVerif.Driver.C13
 open IpaVerif.Util IpaVerif.Channel
@@ -175,6 +183,65 @@ def chanOracle (sz : Nat) (total : Total) (ops : List ChanOp) (impl : String) : 
         return some s!"receive({i}) on gate {g} returned {it} but no such record was sent on this channel"
   return none
 
+/-! ### the per-channel window -/
+
+def windowModel (base readCfg w rec : Nat) (t : Total) : String :=
+  match mpcSendCfg ⟨base, readCfg⟩ w rec (isIndeterminate t) with
+  | .ok c => s!"{(setActiveWork ⟨base, readCfg⟩ w).active} {c.totalCapacity} {c.recordSize} {c.readSize}"
+  | .error e => s!"panic:{e}"
+
+/-- Spec side: a channel opened with the window `w` holds `w` outstanding records (the capacity rule of
+the property: "as long as no more than the configured window of records is outstanding the exchange
+cannot deadlock"), whatever the gateway's own window is; plus the alignment rules of `configOracle`. -/
+def windowOracle (readCfg w rec : Nat) (t : Total) (impl : String) : Option String :=
+  if rec = 0 then (if impl.startsWith "panic" then none else some "zero record size accepted") else
+  match (impl.splitOn " ").mapM String.toNat? with
+  | some [act, cap, r, rd] =>
+    if act ≠ w then some s!"the channel was opened with the window {w} but is configured for {act} records"
+    else if cap < w * rec then
+      some s!"the send buffer ({cap} bytes) cannot hold the requested window of {w} records of {rec} bytes: record {cap / rec} of a batch kept outstanding blocks until the peer reads"
+    else configOracle w readCfg rec t s!"{cap} {r} {rd}"
+  | _ => some s!"the window override must not panic on valid input, got {impl}"
+
+def qwindowModel (base readCfg size : Nat) : String :=
+  let c := setActiveWorkFromQuery Generated.Gateway.defaultActive ⟨base, readCfg⟩ size
+  s!"{c.active} {c.readSize}"
+
+def qwindowOracle (readCfg size : Nat) (impl : String) : Option String :=
+  match (impl.splitOn " ").mapM String.toNat? with
+  | some [act, rd] =>
+    let want := max 2 (min Generated.Gateway.defaultActive size)
+    if !isPow2 act then some "active work is not a power of two"
+    else if act < want then some s!"active work {act} is below max(2, min(default, query size)) = {want}"
+    else if act ≥ 2 * want then some s!"active work {act} is not the next power of two of {want}"
+    else if rd ≠ readCfg then some "read size changed"
+    else none
+  | _ => some s!"unexpected response {impl}"
+
+def burstDigest (sz n : Nat) : Nat :=
+  (List.range n).foldl (fun acc i =>
+    (acc * 31 + (payload 0 i sz).foldl (fun a b => (a * 257 + b + 1) % 1000000007) 0) % 1000000007) 0
+
+/-- Channel-level model: the first `total_capacity / record_size` records are buffered without the
+reader (C14 `sender_refines_spec`); the next write waits for the stream to be polled. -/
+def burstModel (base readCfg w sz n : Nat) : String :=
+  match mpcSendCfg ⟨base, readCfg⟩ w sz false with
+  | .ok c =>
+    if n ≤ c.totalCapacity / sz then s!"ok n={n} digest={burstDigest sz n}" else s!"blocked at={c.totalCapacity / sz}"
+  | .error e => s!"panic:{e}"
+
+def burstOracle (w sz n : Nat) (impl : String) : Option String :=
+  if n ≤ w then
+    if impl = s!"ok n={n} digest={burstDigest sz n}" then none
+    else some s!"{n} records outstanding on a channel opened with the window {w} must be accepted without the reader and received as sent; got {impl}"
+  else
+    match impl.splitOn "=" with
+    | ["blocked at", k] =>
+      match k.toNat? with
+      | some k => if k ≥ w then none else some s!"the sender blocked at record {k}, inside the window {w}"
+      | none => some s!"unexpected response {impl}"
+    | _ => if impl = s!"ok n={n} digest={burstDigest sz n}" then none else some s!"unexpected response {impl}"
+
 def handle (toks : List String) : Option String :=
   match toks with
   | ["c13.config", a, rd, r, t] => some <| Id.run do
@@ -191,6 +258,25 @@ def handle (toks : List String) : Option String :=
       let some t := parseTotal t | return "bad-request"
       let some ops := parseChanOps ops | return "bad-request"
       return showOuts (chanModel sz t ops)
+  | ["c13.window", b, rd, w, r, t] => some <| Id.run do
+      let some b := b.toNat? | return "bad-request"
+      let some rd := rd.toNat? | return "bad-request"
+      let some w := w.toNat? | return "bad-request"
+      let some r := r.toNat? | return "bad-request"
+      let some t := parseTotal t | return "bad-request"
+      return windowModel b rd w r t
+  | ["c13.qwindow", b, rd, n] => some <| Id.run do
+      let some b := b.toNat? | return "bad-request"
+      let some rd := rd.toNat? | return "bad-request"
+      let some n := n.toNat? | return "bad-request"
+      return qwindowModel b rd n
+  | ["c13.burst", b, rd, w, sz, n] => some <| Id.run do
+      let some b := b.toNat? | return "bad-request"
+      let some rd := rd.toNat? | return "bad-request"
+      let some w := w.toNat? | return "bad-request"
+      let some sz := sz.toNat? | return "bad-request"
+      let some n := n.toNat? | return "bad-request"
+      return burstModel b rd w sz n
   | _ => C13Iso.handle toks
 
 def oracle (toks : List String) (impl : String) : Option String :=
@@ -213,6 +299,27 @@ def oracle (toks : List String) (impl : String) : Option String :=
       let some t := parseTotal t | return "unknown"
       let some ops := parseChanOps ops | return "unknown"
       match chanOracle sz t ops impl with
+      | none => return "holds"
+      | some why => return s!"fails {why}"
+  | ["c13.window", _b, rd, w, r, t] => some <| Id.run do
+      let some rd := rd.toNat? | return "unknown"
+      let some w := w.toNat? | return "unknown"
+      let some r := r.toNat? | return "unknown"
+      let some t := parseTotal t | return "unknown"
+      match windowOracle rd w r t impl with
+      | none => return "holds"
+      | some why => return s!"fails {why}"
+  | ["c13.qwindow", _b, rd, n] => some <| Id.run do
+      let some rd := rd.toNat? | return "unknown"
+      let some n := n.toNat? | return "unknown"
+      match qwindowOracle rd n impl with
+      | none => return "holds"
+      | some why => return s!"fails {why}"
+  | ["c13.burst", _b, _rd, w, sz, n] => some <| Id.run do
+      let some w := w.toNat? | return "unknown"
+      let some sz := sz.toNat? | return "unknown"
+      let some n := n.toNat? | return "unknown"
+      match burstOracle w sz n impl with
       | none => return "holds"
       | some why => return s!"fails {why}"
   | _ => C13Iso.oracle toks impl
